@@ -89,6 +89,8 @@ def run(R):
     else:
         R.violation("C12.iter", "FileExecutor::execute|file-loop", "the loop over the input files is not a plain traversal of Vec<BufReader<File>>",
                     [f.loc()])
+    from . import rules_c01
+    rules_c01.total_paths(R, "C12.present")
     R.floor("C12.once", 2)
     R.floor("C12.err", 2)
     R.assume("BufRead::lines yields every line once, in order, including a final line without newline, CRLF and empty lines (std)")
